@@ -400,6 +400,7 @@ def part_b(ctx):
                 else:
                     ctx.ob(pname, "inconclusive", "unknown")
     part_b_vectors(ctx)
+    part_b_outputs(ctx)
 
 
 REPLAY_QVEC = r'''
@@ -430,6 +431,123 @@ print(kind, "explicit" if explicit else "inferred", oks, zeros, "constructed" if
 if explicit and got != want:
     print("REPRODUCED"); sys.exit(1)
 '''
+
+
+REPLAY_SAME = r'''
+import sys
+import sympy as sp
+from sympy.physics import units
+from symplyphysics import Quantity, dimensionless, validate_output
+from symplyphysics.core.quantity_decorator import validate_output_same
+from symplyphysics.core.errors import UnitsError
+from sympy.physics.units.definitions.dimension_definitions import angle as angle_type
+BASE = [units.mass, units.length, units.time, units.current, units.temperature, units.amount_of_substance, units.luminous_intensity, angle_type]
+def mkdim(exps):
+    d = dimensionless
+    for b, e in zip(BASE, exps):
+        e = sp.Rational(e)
+        if e != 0: d = d * b**e
+    return d
+kind = {kind!r}; a = {a!r}; r = {r!r}; ret = {ret!r}; declared = {declared!r}
+def passes(sd, e): return sp.Rational(sd[0]) == 0 or [sp.Rational(x) for x in sd[1][:7]] == [sp.Rational(x) for x in e[:7]]
+if kind == "same":
+    @validate_output_same("a")
+    def f(a): return Quantity(sp.Rational(r[0]), dimension=mkdim(r[1]))
+    want = passes(r, a[1])
+    call = lambda: f(Quantity(sp.Rational(a[0]), dimension=mkdim(a[1])))
+else:
+    @validate_output(mkdim(declared))
+    def f(): return ret
+    want = (ret == 0) or all(sp.Rational(x) == 0 for x in declared[:7])
+    call = f
+try:
+    call(); got = True; msg = ""
+except (TypeError, UnitsError) as e:
+    got = False; msg = f"{{type(e).__name__}}: {{e}}"
+print(kind, "argument", a, "result", r if kind == "same" else repr(ret), "declared", declared, "-> returned" if got else "-> refused", msg, "| want returned:", want)
+if got != want:
+    print("REPRODUCED"); sys.exit(1)
+'''
+
+
+def part_b_outputs(ctx):
+    """validate_output_same (the result must have the dimension of a named argument, whatever that argument's magnitude) and plain Python
+    numbers returned from a function whose declared result is dimensional"""
+    from symplyphysics.core import quantity_decorator as QD
+    from symplyphysics.core.errors import UnitsError
+    from sympy.physics import units
+    ses = Session(ctx)
+    name = "B:validate_output_same"
+    with ses.active(), rebound(*standard_bindings()):
+        a = make_quantity(ses.scalar("a"), ses.dim("Da"))
+        r = make_quantity(ses.scalar("r"), ses.dim("Dr"))
+        runs = itertools.count()
+
+        def call():
+            def raw(a):
+                return r
+            raw.__name__ = raw.__qualname__ = f"same_{next(runs)}"
+            return QD.validate_output_same("a")(raw)(a)
+        try:
+            paths = explore(call)
+        except LiftUnsupported as e:
+            ctx.ob(name, "unencoded", str(e))
+            paths = []
+        if paths:
+            cov = coverage_ok(paths)
+            ctx.ob(name + ":coverage", "discharged" if cov == "covered" else "inconclusive", cov)
+            acc, _, _ = gate(ses, "qty", ses.z(r.scale_factor), to_vec(r.dimension), to_vec(a.dimension))
+            for i, p in enumerate(paths):
+                if p.kind == "ret":
+                    spec = acc
+                elif isinstance(p.value, (TypeError, UnitsError)):
+                    spec = z3.Not(acc)
+                else:
+                    spec = z3.BoolVal(False)
+                res, m = ses.check(p.pc + [z3.Not(spec)])
+                if res == "unsat":
+                    ctx.ob(f"{name}:path{i}", "discharged")
+                elif res == "sat":
+                    mv = lambda z: str(model_value(m, z))
+                    sd = lambda qq: (mv(ses.z(qq.scale_factor)), [mv(x) for x in to_vec(qq.dimension)])
+                    ctx.violation(f"C04:B:output_same:{p.describe()}", f"validate_output_same: {p.describe()} contradicts 'the result has the dimension of the named argument' (a={sd(a)}, result={sd(r)})",
+                                  REPLAY_SAME.format(kind="same", a=sd(a), r=sd(r), ret=None, declared=None))
+                else:
+                    ctx.ob(f"{name}:path{i}", "inconclusive", "unknown")
+    # plain numbers as results (finite enumeration, concrete): non-zero -> TypeError, zero -> accepted
+    L8 = ["0", "1", "0", "0", "0", "0", "0", "0"]
+    E8 = ["1", "2", "-5/2", "0", "0", "0", "0", "0"]
+    for declared, dn in ((L8, "length"), (E8, "energy/sqrt(time)")):
+        for ret in (100, 2.5, -7, 0, 0.0, sp.Integer(3), sp.Rational(1, 2), sp.Float(1.5)):
+            dim = mkdim_real(declared)
+
+            def fn(ret=ret):
+                return ret
+            try:
+                QD.validate_output(dim)(fn)()
+                got = True
+            except (TypeError, UnitsError):
+                got = False
+            want = ret == 0
+            nm = f"B:bare-number-result:{ret!r}:{dn}"
+            if got == want:
+                ctx.ob(nm, "discharged", nontrivial=False)
+            else:
+                ctx.violation(f"C04:B:bare-number-result:{type(ret).__name__}", f"a function declared to return {dn} returned the bare number {ret!r} and the validator {'let it through' if got else 'refused it'}",
+                              REPLAY_SAME.format(kind="bare", a=None, r=None, ret=ret if not isinstance(ret, sp.Basic) else float(ret), declared=declared))
+
+
+def mkdim_real(exps):
+    from sympy.physics import units
+    from symplyphysics import dimensionless
+    from sympy.physics.units.definitions.dimension_definitions import angle as angle_type
+    base = [units.mass, units.length, units.time, units.current, units.temperature, units.amount_of_substance, units.luminous_intensity, angle_type]
+    d = dimensionless
+    for b, e in zip(base, exps):
+        e = sp.Rational(e)
+        if e != 0:
+            d = d * b**e
+    return d
 
 
 def part_b_vectors(ctx):
@@ -499,7 +617,7 @@ def run(ctx):
                   "sequence arguments of length 0..3 (quick: 0 and 2), vectors of 3 components (thorough: 1..3)",
                   "Part C: every decorated catalogue function, one solver-chosen wrong dimension per guarded parameter"]
     ctx.outside = ["declared unit with zero scale factor", "guarded parameters with default values that the caller omits",
-                   "complex scale factors", "validate_output_same"]
+                   "complex scale factors"]
     ctx.trusted = ["z3", "sympy dimsys_SI.get_dimensional_dependencies for concrete dimensions", "vlib.lift stubs (listed)"]
     part_a(ctx)
     part_b(ctx)
